@@ -186,8 +186,8 @@ impl MintBuilder {
 
     fn checked_mint_sum(current: i128, amount: i128) -> Result<i128, JsError> {
         let sum = current + amount;
-        // a burn is handed on as an unsigned quantity: its magnitude has to fit 64 bits as well
-        if sum > u64::MAX as i128 || sum < -(u64::MAX as i128) {
+        // a mint field holds nonZeroInt64 quantities
+        if sum > i64::MAX as i128 || sum < i64::MIN as i128 {
             return Err(JsError::from_str("Mint amount overflow"));
         }
         Ok(sum)
